@@ -8,20 +8,7 @@ from sc3.synth import ugen as ugn
 import sc3.base.main as _main
 
 
-def recon_units(sdef):
-    out = []
-    for u in sdef._children:
-        nch = len(u._channels) if isinstance(u, ugn.MultiOutUGen) else None
-        ins = []
-        for i in u.inputs:
-            if isinstance(i, (int, float)):
-                ins.append(['c', B.f32word(i)])
-            elif isinstance(i, ugn.OutputProxy):
-                ins.append(['u', i.source_ugen._synth_index, i._output_index])
-            else:
-                ins.append(['u', i._synth_index, 0])
-        out.append([type(u).__name__, u.rate, u._special_index, ins, nch])
-    return out
+recon_units = B.recon_units
 
 
 def main():
